@@ -715,6 +715,30 @@ func c04Oracle(c *oracleCtx) {
 			return ""
 		})
 	}
+	// files larger than any plausible read buffer: ParseFile sees exactly the bytes of the file
+	c.check("file:large", true, func() string {
+		big := NewObject("a", NewObject("b", NewList(NewList(0))), "z", NewList())
+		for i := 0; i < 3000; i++ {
+			big.GetList("z").Add(NewList(1, 1, 1))
+		}
+		doc := big.String()
+		for _, cut := range []int{4095, 4096, 4097, 4108, 4109, 8191, 8192, 8193, 8200, 12289, len(doc) - 1, len(doc)} {
+			if cut > len(doc) {
+				continue
+			}
+			fp := filepath.Join(dir, fmt.Sprintf("big%d.json", cut))
+			os.WriteFile(fp, []byte(doc[:cut]), 0o600)
+			o1, e1 := ParseFile(fp)
+			o2, e2 := ParseObject(doc[:cut])
+			if (e1 == nil) != (e2 == nil) || (o1 == nil) == (e1 == nil) || (e1 == nil && !o1.Equals(o2)) {
+				return fmt.Sprintf("ParseFile disagrees with ParseObject on the first %d bytes of a %d-byte document (errors %v / %v)", cut, len(doc), e1, e2)
+			}
+			if cut < len(doc) && e1 == nil {
+				return fmt.Sprintf("ParseFile accepts a file cut off after %d of %d bytes", cut, len(doc))
+			}
+		}
+		return ""
+	})
 	c.check("file:missing", true, func() string {
 		o, err := ParseFile(filepath.Join(dir, "does-not-exist.json"))
 		if o != nil || err == nil {
